@@ -874,8 +874,8 @@ package xmpp
 //
 //@ func (*xmpp.StreamManager).connect(sm) (err)
 //@   requires sm != nil && (typeof(sm.client) == *Client ==> connectOK(sm.client.(*Client)))
-//@   ensures [C13.connect.state] (sm.client == nil || typeof(sm.client) != *Client || old(sm.client.(*Client).CurrentState.state) != StateDisconnected) ==> err != nil && count(PostConnectCalled) == old(count(PostConnectCalled))
-//@   ensures [C13.connect.post]  (err == nil && sm.PostConnect != nil) ==> count(PostConnectCalled) == old(count(PostConnectCalled)) + 1 && last(PostConnectCalled) == sm.client
+//@   ensures [C13.connect.state] old(sm.client == nil || typeof(sm.client) != *Client || sm.client.(*Client).CurrentState.state != StateDisconnected) ==> err != nil && count(PostConnectCalled) == old(count(PostConnectCalled))
+//@   ensures [C13.connect.post]  (err == nil && old(sm.PostConnect) != nil) ==> count(PostConnectCalled) == old(count(PostConnectCalled)) + 1 && last(PostConnectCalled) == old(sm.client)
 //@   ensures [C13.connect.fail]  err != nil ==> count(PostConnectCalled) == old(count(PostConnectCalled))
 //@   assigns *
 //@   emits PostConnectCalled, Spawn_recv, Spawn_keepalive, Write, EventHandler
